@@ -245,6 +245,9 @@ func (c03) Exec(pj json.RawMessage, tape *simrt.Tape, keepLog bool) harness.RunO
 		if f == "loop-var-captured-directly" {
 			facts = "/loop-var-captured-directly"
 		}
+		if f == "var-struct-fields-two-locks" {
+			facts = "/var-struct-field-load"
+		}
 	}
 	fn := registry[p.Prog]
 	if !ok || fn == nil {
